@@ -551,12 +551,12 @@ def run(prog, rep, tier):
         'the per-slot receiver lists are fresh per slot (creation by '
         'assignment to the receiver root is recognised)',
     ]
-    r02_1(prog, rep)
-    r02_2(prog, rep)
-    r02_4(prog, rep)
-    r02_5(prog, rep)
+    rep.attempt(r02_1, prog, rep)
+    rep.attempt(r02_2, prog, rep)
+    rep.attempt(r02_4, prog, rep)
+    rep.attempt(r02_5, prog, rep)
     from .c01 import r02_8
-    r02_8(prog, rep)
+    rep.attempt(r02_8, prog, rep)
     # R02.3 information
     for K in sched_classes(prog)[1]:
         f = prog.find_method(K, 'schedule_task')
